@@ -50,6 +50,7 @@ struct Cfg {
 
 struct World {
   Replica r[MAXREP]; Cfg cfg; Run *run = nullptr; uint64_t next_token = 1000;
+  std::map<std::string, std::string> hint;   // oracle id prefix -> class suffix naming the specific history that an op just produced (known findings)
   int nlive() const { int n = 0; for (auto &x : r) n += x.live(); return n; }
   int pick(uint64_t sel) const { int n = nlive(); if (!n) return -1; int k = (int)(sel % n); for (int i = 0; i < MAXREP; i++) if (r[i].live() && !k--) return i; return -1; }
   int free_slot() const { for (int i = 0; i < MAXREP; i++) if (!r[i].live()) return i; return -1; }
